@@ -23,6 +23,7 @@ type FakeConn struct {
 	Closed    bool
 	Deadlines []time.Time
 	Reads     int
+	OnWrite   func(total int) // called once after a Write has delivered its bytes to the client (no lock held)
 	Block     bool // with no chunk left, Read waits for Feed instead of reporting Fin
 	Waiting   int  // readers currently waiting
 	cond      *sync.Cond
@@ -81,6 +82,13 @@ func (f *FakeConn) Write(b []byte) (int, error) {
 		return 0, net.ErrClosed
 	}
 	f.Out = append(f.Out, b...)
+	if hook := f.OnWrite; hook != nil {
+		f.OnWrite = nil
+		total := len(f.Out)
+		f.mu.Unlock()
+		hook(total)
+		f.mu.Lock()
+	}
 	return len(b), nil
 }
 
